@@ -4,7 +4,7 @@ PLAN = {
     "manifest": {
         "technique": "Verus (z3) on recorder.rs functions extracted verbatim (get_recent_metrics, drain_histograms_to_distributions, add_description_if_missing) against a functional specification of the snapshot, over ASSUMED specifications of registry handle listing, recency, key_to_parts, std HashMap/IndexMap/RwLock and the bucket",
         "text": "Partly claimed. Proved, for any number of keys and any handle values: the counters (gauges) section of a snapshot is exactly the fold over the live handles that the recency tracker keeps of `put(series_of(key), load(atomic))` -- the series identity always computed with the recorder's global labels, the value the atomic's content at the load (bit-reinterpreted for gauges), last writer wins; draining records the pending samples of each histogram's bucket into the distribution of the series that key renders as (created from the builder for that name if absent) and touches no other distribution; an expired histogram removes exactly that series' distribution (and an emptied per-name map); a description is inserted only if the sanitised name has none yet (HELP = first description).",
-        "note": "NOT decided here: the rendered text (render(): see C08 for line grammar), float formatting round-trip, label precedence inside key_to_parts (iterator/closure chain over IndexMap + format!), `_sum` as a float fold, concurrent record/render (inherits C05's gap), that AtomicBucket::clear_with hands each sample out exactly once (assumed), that Distribution::record_samples counts each sample (C15's contract). Atomic handle updates are C04's contracts.",
+        "note": "render() is proved to emit (HELP? TYPE SAMPLE* blank)* with every sample inside the family of its TYPE line (abstract lines; C08 owns the line grammar). NOT decided here: float formatting round-trip, label precedence inside key_to_parts (iterator/closure chain over IndexMap + format!), `_sum` as a float fold, concurrent record/render (inherits C05's gap), that AtomicBucket::clear_with hands each sample out exactly once (assumed), that Distribution::record_samples counts each sample (C15's contract). Atomic handle updates are C04's contracts.",
     },
     "min_obligations": {"quick": 5, "thorough": 5},
     "assumptions": [
